@@ -87,7 +87,9 @@ fn named(src: &str, name: &str, sym: &Range, full: &Range, what: &str, out: &mut
     if !inside(sym, full) { out.push(format!("WITNESS {} `{}`: name range not inside full range; source: {:?}", what, name, src)); }
 }
 
-fn check_doc(src: &str, out: &mut Vec<String>) {
+fn check_doc(src: &str, out: &mut Vec<String>) { check_doc_opt(src, true, out) }
+// must_have_tree = false: the text may be rejected (that is C03's business), but every range that IS reported indexes `src`
+fn check_doc_opt(src: &str, must_have_tree: bool, out: &mut Vec<String>) {
     let mut p = Parser::new();
     p.add_content(0, src);
     let res = p.validate();
@@ -96,7 +98,7 @@ fn check_doc(src: &str, out: &mut Vec<String>) {
         wf(src, &d.range, "diagnostic", out);
         for ri in &d.related_infos { wf(src, &ri.range, "related info", out); }
     }
-    let ast = match &fr.ast { Some(a) => a, None => { out.push(format!("WITNESS well-formed document has no tree: {:?}; source: {:?}", fr.diagnostics.iter().map(|d| &d.message).collect::<Vec<_>>(), src)); return; } };
+    let ast = match &fr.ast { Some(a) => a, None => { if must_have_tree { out.push(format!("WITNESS well-formed document has no tree: {:?}; source: {:?}", fr.diagnostics.iter().map(|d| &d.message).collect::<Vec<_>>(), src)); } return; } };
     named(src, &ast.package.name, &ast.package.symbol_range, &ast.package.full_range, "package", out);
     for i in ast.imports.iter().chain(ast.declared_parcelables.iter()) {
         let q = if i.path.is_empty() { i.name.clone() } else { format!("{}.{}", i.path, i.name) };
@@ -218,6 +220,18 @@ fn c04_all() {
               "package p ; parcelable P { @Nullable String s ; @A @B int [ ] a = 1 ; @C const int K = 1 ; int plain ; }"].iter() {
         for l in layouts(&d.split(' ').collect::<Vec<_>>()) { docs += 1; check_annotated(&l, &mut out); }
     }
+    // a character the lexer may skip, reject or (after a change) strip in front of / inside the document: offsets must keep
+    // indexing the text the caller passed (BOM, zero-width space, no-break space, line separator, ...)
+    for pre in ["\u{feff}", "\u{feff}\u{feff}", "\u{200b}", "\u{a0}", "\u{2028}", "\u{2003}\u{e9}"].iter() {
+        for d in ["package p . q ; import x . y . Foo ; interface I { Map < String , Foo [ ] > f ( in x.y.Foo a , out int [ ] b ) = 12 ; const int K = 1 ; }",
+                  "package p ; parcelable P { List < Foo > a ; const String S = \"s\" ; }", "package p ; enum E { A = 1 , B }"].iter() {
+            for l in layouts(&d.split(' ').collect::<Vec<_>>()) {
+                docs += 2;
+                check_doc_opt(&format!("{}{}", pre, l), false, &mut out);
+                check_doc_opt(&l.replacen(';', &format!(";{}", pre), 1), false, &mut out);
+            }
+        }
+    }
     let e = "package p ; enum E { A = 1 , B , C = 3 , }";
     for l in layouts(&e.split(' ').collect::<Vec<_>>()) { docs += 1; check_doc(&l, &mut out); }
     // syntax diagnostics: an unlexable character gets an empty range exactly at that character; an unexpected token is
@@ -255,6 +269,6 @@ fn c04_all() {
     }
     out.sort(); out.dedup();
     for w in out.iter().take(12) { println!("{}", w.chars().take(700).collect::<String>()); }
-    println!("ORACLE-STATS evaluations={} distinct={} rule=each range comparison (well-formedness, line/col, name text, nesting, sibling order) on 12 x 6 type shapes x 2 frames x 6 layouts + enum + annotated members (first token, oneway / code ranges inside) + 28 malformed documents (unlexable character / unexpected token / end of input, 4 paddings)", unsafe { EVALS }, docs);
+    println!("ORACLE-STATS evaluations={} distinct={} rule=each range comparison (well-formedness, line/col, name text, nesting, sibling order) on 12 x 6 type shapes x 2 frames x 6 layouts + enum + 6 odd prefixes / infixes (BOM, zero-width, no-break space, line separator) x 3 documents x 6 layouts + annotated members (first token, oneway / code ranges inside) + 28 malformed documents (unlexable character / unexpected token / end of input, 4 paddings)", unsafe { EVALS }, docs);
     assert!(out.is_empty(), "witness found");
 }
